@@ -10,12 +10,15 @@ package decode
 //	           stuck worker was on.
 //	c01-single one case, generously timed: used to confirm hangs and crashes (twice) and by --replay.
 //
-// Hang detection inside the bulk worker ("fast path"): a monitor goroutine watches the CPU time the
-// decoding thread spends on one case. Past the threshold it revokes access to the mmap'ed input
-// arena; a decoder that loops over its input faults on its next read, the fault becomes a panic
-// (debug.SetPanicOnFault) and the worker goes on with the next case. Such a case is only a hang
-// *candidate*: the parent confirms one representative per stack signature in c01-single processes
-// with a 5 s limit. A loop that never touches its input again is caught by the parent's watchdog.
+// Hang detection inside the bulk worker ("fast path"): a monitor thread watches the CPU time the
+// decoding thread spends inside one call of the library. Past the allowance it revokes access to
+// the mmap'ed input arena; a decoder that loops over its input faults on its next read, the fault
+// becomes a panic (debug.SetPanicOnFault) and is recovered. The case is run a second time - with 5
+// times the allowance if a function the parent has already confirmed to loop is on the faulting
+// stack, with 25 times the allowance otherwise - and only if that run ends the same way it is a hang *candidate* and is
+// skipped; the parent confirms one representative per stack signature in c01-single processes with
+// a 5 s limit (twice) before it counts any of them. A loop that never touches its input again is
+// caught by the parent's watchdog (worker silent for 20 s, progress file, confirmation).
 
 import (
 	"bufio"
@@ -201,7 +204,12 @@ func trippedIn(res *[nBackings]result) []string {
 	return nil
 }
 
-const patience = 25 // a trip on an unconfirmed stack is repeated with this many times the CPU allowance
+// A tripped case is run again with a multiple of the CPU allowance: 5 times when a function
+// already confirmed to loop is on the faulting stack, 25 times otherwise.
+const (
+	patienceKnown = 5
+	patience      = 25
+)
 
 func (w *bulk) batch(sp *space, lo, hi int64) {
 	c := w.c
@@ -257,7 +265,9 @@ func (w *bulk) batch(sp *space, lo, hi int64) {
 					known = w.hasLooper(fr)
 				}
 			}
-			if !known {
+			if known {
+				w.tripNs.Store(fast * patienceKnown)
+			} else {
 				w.tripNs.Store(fast * patience)
 			}
 			res = w.e.eval(ac.kind, ac.x, rem)
